@@ -351,6 +351,35 @@ func (ex *Exec) noteRefs(v Val) {
 	walk(v)
 }
 
+// isNarrowCounter: a plain integer type of fewer than 64 bits (not a byte
+// used as data, not one of the saturating Count types).
+func isNarrowCounter(t types.Type) bool {
+	if isCountType(t) {
+		return false
+	}
+	b, ok := t.Underlying().(*types.Basic)
+	if !ok {
+		return false
+	}
+	switch b.Kind() {
+	case types.Int8, types.Int16, types.Int32, types.Uint16, types.Uint32:
+		return true
+	case types.Uint8:
+		_, named := t.(*types.Named)
+		return named || true
+	}
+	return false
+}
+
+// bvSAddOverflow: signed overflow of x + y at width w, without relying on the
+// solver's bvsaddo (not in every installed version).
+func bvSAddOverflow(x, y Term, w int) Term {
+	sum := app("bvadd", x, y)
+	zero := bvLit(w, 0)
+	xneg, yneg, sneg := app("bvslt", x, zero), app("bvslt", y, zero), app("bvslt", sum, zero)
+	return or(and(not(xneg), not(yneg), sneg), and(xneg, yneg, not(sneg)))
+}
+
 func isCountType(t types.Type) bool {
 	n, ok := t.(*types.Named)
 	if !ok || n.Obj().Pkg() == nil {
@@ -394,6 +423,15 @@ func (ex *Exec) binop(in *ssa.BinOp, r Term) Val {
 			}
 			if ex.top.fc != nil && ex.top.fc.Options["intoverflow"] != "" && signed {
 				ex.addObl("overflow", "", r, not(app("bvsaddo", x.T, y.T)), in.Pos(), "signed addition overflows", false)
+			}
+			// narrow integers (int8/16/32, uint8/16/32) that count things wrap
+			// long before memory runs out; 64-bit ones are covered by A-MACHINE
+			if ex.top.sweep && isNarrowCounter(in.Type()) {
+				if signed {
+					ex.addObl("overflow", "", r, not(bvSAddOverflow(x.T, y.T, x.W)), in.Pos(), "narrow signed addition wraps: "+in.String(), false)
+				} else {
+					ex.addObl("overflow", "", r, app("bvuge", res.T, x.T), in.Pos(), "narrow unsigned addition wraps: "+in.String(), false)
+				}
 			}
 		case token.SUB:
 			res.T = app("bvsub", x.T, y.T)
